@@ -1,0 +1,150 @@
+//go:build verif
+
+package spec_2022
+
+import (
+	enc "github.com/named-data/ndnd/std/encoding"
+)
+
+// C03 / C12: contracts for the packet API (MakeData, MakeInterest) and the parameters-digest check.
+// Compiled only with build tag `verif`.
+
+// ---------------------------------------------------------------------------------------
+// ndn.Signer: environment contracts (what MakeData / MakeInterest may rely on for ANY signer).
+// A signer may keep private state (sequence numbers) but does not write memory owned by the packet
+// encoder; results are unconstrained: SigInfo may return (nil, nil), ComputeSigValue may return a nil,
+// short or over-long value, EstimateSize any uint.
+// ---------------------------------------------------------------------------------------
+
+//@ func (github.com/named-data/ndnd/std/ndn.Signer).SigInfo
+
+//@ func (github.com/named-data/ndnd/std/ndn.Signer).EstimateSize
+//@   pure
+
+//@ func (github.com/named-data/ndnd/std/ndn.Signer).ComputeSigValue
+//@   modifies enc.GhostHashSt
+
+// ---------------------------------------------------------------------------------------
+// What the generated packet encoder promises to MakeData/MakeInterest (instances of C13 for the
+// models Packet/Data/Interest; the spec predicates are executable and are also checked at run time
+// by the harness zz_h6_encoder_facts_test.go).
+// ---------------------------------------------------------------------------------------
+
+// specOuterTL: wire[0] starts with the one-byte type typ followed by the shortest-form length l.
+func specOuterTL(wire enc.Wire, typ byte, l uint) bool {
+	return len(wire) >= 1 && len(wire[0]) >= 1+enc.SpecTLLen(uint64(l)) && wire[0][0] == typ &&
+		enc.SpecTLSize(wire[0], 1) == enc.SpecTLLen(uint64(l)) && enc.SpecTLVal(wire[0], 1) == uint64(l)
+}
+
+// specSigSlot: wire[idx] is the (still empty) slot reserved for a signature value of est bytes, and the
+// buffer before it ends with the SignatureValue header: type typ (23 = SignatureValue of Data, 46 =
+// InterestSignatureValue) and the shortest-form length est; that header
+// lies behind the first hdr bytes of wire[0] (the outer TL).
+func specSigSlot(wire enc.Wire, idx int, est uint, hdr int, typ byte) bool {
+	if !(1 <= idx && idx < len(wire)) {
+		return false
+	}
+	b := wire[idx-1]
+	n := enc.SpecTLLen(uint64(est))
+	return len(b) >= 1+n && b[len(b)-1-n] == typ &&
+		enc.SpecTLSize(b, len(b)-n) == n && enc.SpecTLVal(b, len(b)-n) == uint64(est) &&
+		(idx > 1 || len(b) >= hdr+1+n)
+}
+
+//@ func (*PacketEncoder).Init
+//@   trusted
+//@   requires value != nil
+//@   modifies deep(encoder), value.Interest.NameV, value.Interest.NameV[*]
+//@   ensures encoder.Data_encoder.SignatureValue_estLen == old(encoder.Data_encoder.SignatureValue_estLen)
+//@   ensures encoder.Interest_encoder.SignatureValue_estLen == old(encoder.Interest_encoder.SignatureValue_estLen)
+//@   ensures encoder.Interest_encoder.NameV_needDigest == old(encoder.Interest_encoder.NameV_needDigest)
+//@   ensures value.Interest != nil && old(value.Interest.NameV) != nil && encoder.Interest_encoder.NameV_needDigest ==> specDigestName(value.Interest.NameV)
+//@   ensures value.Interest != nil && old(value.Interest.NameV) != nil ==> fresh(value.Interest.NameV) || sliceArr(value.Interest.NameV) == old(sliceArr(value.Interest.NameV))
+//@   ensures value.Interest != nil && value.Interest.ApplicationParameters != nil ==> encoder.Interest_encoder.ApplicationParameters_length == uint(enc.SpecWireLen(value.Interest.ApplicationParameters, len(value.Interest.ApplicationParameters)))
+
+//@ func (*PacketEncoder).Encode
+//@   trusted
+//@   requires value != nil
+//@   modifies deep(encoder)
+//@   ensures result != nil && fresh(result)
+//@   ensures encoder.Data_encoder.SignatureValue_estLen == old(encoder.Data_encoder.SignatureValue_estLen)
+//@   ensures value.Data != nil && value.Interest == nil && value.LpPacket == nil ==> specOuterTL(result, 6, encoder.Data_encoder.length) && fresh(result[0])
+//@   ensures value.Data != nil && value.Interest == nil && value.LpPacket == nil && encoder.Data_encoder.SignatureValue_estLen > 0 ==> specSigSlot(result, encoder.Data_encoder.SignatureValue_wireIdx, encoder.Data_encoder.SignatureValue_estLen, 1+enc.SpecTLLen(uint64(encoder.Data_encoder.length)), 23) && fresh(result[encoder.Data_encoder.SignatureValue_wireIdx-1])
+//@   ensures value.Data != nil && value.Interest == nil && value.LpPacket == nil && encoder.Data_encoder.SignatureValue_estLen > 0 ==> encoder.Data_encoder.length >= encoder.Data_encoder.SignatureValue_estLen
+//@   ensures value.Data != nil && value.Interest == nil && value.LpPacket == nil && encoder.Data_encoder.SignatureValue_estLen > 0 && encoder.Data_encoder.SignatureValue_wireIdx > 1 ==> sliceArr(result[encoder.Data_encoder.SignatureValue_wireIdx-1]) != sliceArr(result[0])
+//@   ensures encoder.Interest_encoder.SignatureValue_estLen == old(encoder.Interest_encoder.SignatureValue_estLen) && encoder.Interest_encoder.NameV_needDigest == old(encoder.Interest_encoder.NameV_needDigest)
+//@   ensures value.Interest != nil && value.Data == nil && value.LpPacket == nil ==> specOuterTL(result, 5, encoder.Interest_encoder.length) && fresh(result[0])
+//@   ensures value.Interest != nil && value.Data == nil && value.LpPacket == nil && encoder.Interest_encoder.SignatureValue_estLen > 0 && encoder.Interest_encoder.SignatureValue_wireIdx >= 0 ==> specSigSlot(result, encoder.Interest_encoder.SignatureValue_wireIdx, encoder.Interest_encoder.SignatureValue_estLen, 1+enc.SpecTLLen(uint64(encoder.Interest_encoder.length)), 46) && fresh(result[encoder.Interest_encoder.SignatureValue_wireIdx-1])
+//@   ensures value.Interest != nil && value.Data == nil && value.LpPacket == nil && encoder.Interest_encoder.SignatureValue_estLen > 0 ==> encoder.Interest_encoder.length >= encoder.Interest_encoder.SignatureValue_estLen
+//@   ensures value.Interest != nil && value.Data == nil && value.LpPacket == nil && value.Interest.NameV != nil && value.Interest.ApplicationParameters != nil && encoder.Interest_encoder.NameV_needDigest ==> specInterestWire(result, 1+enc.SpecTLLen(uint64(encoder.Interest_encoder.length)), encoder.Interest_encoder.NameV_pos, uint64(encoder.Interest_encoder.ApplicationParameters_length))
+//@   ensures value.Interest != nil && value.Data == nil && value.LpPacket == nil && value.Interest.ApplicationParameters != nil && encoder.Interest_encoder.SignatureValue_estLen > 0 && encoder.Interest_encoder.SignatureValue_wireIdx >= 0 ==> encoder.Interest_encoder.SignatureValue_wireIdx > 1 && sliceArr(result[encoder.Interest_encoder.SignatureValue_wireIdx-1]) != sliceArr(result[0])
+//@   ensures encoder.Interest_encoder.ApplicationParameters_length == old(encoder.Interest_encoder.ApplicationParameters_length)
+
+
+// specDigestName: the name ends with a ParametersSha256DigestComponent holding a 32-byte value.
+func specDigestName(n enc.Name) bool {
+	return len(n) > 0 && n[len(n)-1].Typ == enc.TypeParametersSha256DigestComponent && len(n[len(n)-1].Val) == 32
+}
+
+// specInterestWire: layout facts of wire[0] of an encoded Interest with a parameters digest:
+// outer TL of hdr bytes; the last name component (type 2, length 32) has its 32 value bytes at hdr+pos;
+// wire[0] ends with the ApplicationParameters header (type 36 and the shortest-form length apLen), the
+// parameter buffers follow as wire[1:].
+func specInterestWire(wire enc.Wire, hdr int, pos uint, apLen uint64) bool {
+	if len(wire) < 1 {
+		return false
+	}
+	b := wire[0]
+	n := enc.SpecTLLen(apLen)
+	return pos >= 2 && pos <= 281474976710656 && hdr+int(pos)+32+1+n <= len(b) &&
+		b[hdr+int(pos)-2] == 2 && b[hdr+int(pos)-1] == 32 &&
+		b[len(b)-1-n] == 36 && enc.SpecTLSize(b, len(b)-n) == n && enc.SpecTLVal(b, len(b)-n) == apLen
+}
+
+// ---------------------------------------------------------------------------------------
+// MakeData
+// ---------------------------------------------------------------------------------------
+
+// For every name, config, content and signer: no panic; if a signature slot was reserved, then after the
+// patch the SignatureValue length field decodes to exactly len(sigVal) ("every length field is exact"),
+// and the call of enc.ShrinkLength satisfies its precondition.
+//
+//@ func (Spec).MakeData
+//@   nullable config
+//@   modifies enc.GhostHashSt
+//@   assert before ShrinkLength@1 estSigLen <= 252 ==> enc.SpecTLVal(buf, len(buf)-enc.SpecTLLen(uint64(estSigLen))) == uint64(len(sigVal))
+//@   assert before ShrinkLength@1 253 <= estSigLen && estSigLen <= 65535 ==> enc.SpecTLVal(buf, len(buf)-3) == uint64(len(sigVal))
+//@   assert before ShrinkLength@1 65536 <= estSigLen && estSigLen <= 4294967295 ==> enc.SpecTLVal(buf, len(buf)-5) == uint64(len(sigVal))
+//@   assert before ShrinkLength@1 4294967296 <= estSigLen ==> enc.SpecTLVal(buf, len(buf)-9) == uint64(len(sigVal))
+//@   assert before ShrinkLength@1 enc.SpecTLVal(buf, len(buf)-enc.SpecTLLen(uint64(estSigLen))) == uint64(len(sigVal))
+//@   ensures result1 == nil ==> result0 != nil
+
+// ---------------------------------------------------------------------------------------
+// checkInterest (C12): an Interest that carries ApplicationParameters is accepted only if its last name
+// component is a ParametersSha256DigestComponent (type 2) whose value is SHA-256 of the covered bytes;
+// a signed Interest without parameters is rejected. SHA-256 is an uninterpreted function (A-HASH).
+// ---------------------------------------------------------------------------------------
+
+//@ func checkInterest
+//@   requires val != nil && context != nil
+//@   modifies enc.GhostHashSt
+//@   ensures result == nil ==> val.NameV != nil
+//@   ensures val.SignatureValue != nil && val.ApplicationParameters == nil ==> result != nil
+//@   ensures result == nil && val.ApplicationParameters != nil ==> len(val.NameV) > 0 && val.NameV[len(val.NameV)-1].Typ == 2 && len(val.NameV[len(val.NameV)-1].Val) == 32
+//@   ensures result == nil && val.ApplicationParameters != nil ==> forallIn(0, 32, func(i int) bool { return val.NameV[len(val.NameV)-1].Val[i] == enc.SpecHashByte(enc.SpecHashWire(context.digestCovered, len(context.digestCovered)), i) })
+//@   loop 1 invariant enc.GhostHashSt == enc.SpecHashWire(digestCovered, rangeindex+1)
+
+// ---------------------------------------------------------------------------------------
+// MakeInterest (C03/C12): no panic for any name, config, parameters and signer; the parameters digest is
+// written into the value bytes of the last name component inside wire[0] (the returned FinalName aliases
+// them) and equals SHA-256 (uninterpreted, A-HASH) of "ApplicationParameters TL header ++ wire[1:]".
+// ---------------------------------------------------------------------------------------
+
+//@ func (Spec).MakeInterest
+//@   nullable config
+//@   modifies enc.GhostHashSt, name[*]
+//@   ensures result1 == nil ==> result0 != nil
+//@   ensures result1 == nil && appParam != nil ==> specDigestName(result0.FinalName) && len(result0.Wire) >= 1 && sliceArr(result0.FinalName[len(result0.FinalName)-1].Val) == sliceArr(result0.Wire[0])
+//@   ensures result1 == nil && appParam != nil ==> forallIn(0, 32, func(i int) bool { return result0.FinalName[len(result0.FinalName)-1].Val[i] == enc.SpecHashByte(enc.GhostHashSt, i) })
+//@   loop 1 invariant specDigestName(finalName) && sameSlice(finalName[len(finalName)-1].Val, digestBuf) && len(digestBuf) == 32 && sliceArr(digestBuf) == sliceArr(wire[0]) && len(wire) >= 1
+//@   loop 1 invariant enc.GhostHashSt == enc.SpecHashWireFrom(enc.SpecHashAbsorb(enc.SpecHashInit(), wire[0][len(wire[0])-appParamLen-1:]), digestCovered, rangeindex+1)
